@@ -36,96 +36,268 @@ def _private(ctx, mod, suffix):
     raise anchor_error('%s.*%s not found' % (mod, suffix), mod)
 
 
+def _const_anywhere(ctx, name):
+    """literal value of a module-level constant of that name (first module that defines it as a literal)"""
+    for m in ctx.prog.modules.values():
+        n = m.consts.get(name)
+        if isinstance(n, ast.Constant):
+            return n.value
+    return None
+
+
 def rule_D(ctx):
-    """C10.D / C10.S candidates"""
+    """C10.D / C10.S candidates: __mapOnNetwork interpreted on abstract objects.
+
+    The candidate-building code moves values around and takes one decision per (observation, neighbouring edge): distance vs search
+    radius.  The projector, the end-node distance helper, the index and the decoder are uninterpreted (each returns a tag recording what
+    it was given); the function body is interpreted by tlint.orders (not executed) for 0, 1 or 2 neighbouring edges per observation
+    (incl. the index answering None) and every position of each distance relative to the radius (below / equal / above), on two
+    tracks in a row (the candidate table is module-global)."""
+    from .. import orders
+    import itertools
+    import math
     f = _private(ctx, MAP, '__mapOnNetwork')
-    body = body_nodocstring(f)
-    track, network = f.params[:2]
-    radius = f.params[4]
-    loops = [s for s in body if isinstance(s, ast.For) and any(
-        isinstance(n, ast.Call) and getattr(n.func, 'attr', None) == 'neighborhood' for n in ast.walk(s))]
-    if len(loops) != 1:
-        raise shape_error('__mapOnNetwork: observation loop not found', f.loc())
-    lo = loops[0]
-    iv = lo.target.id
-    from .c18 import _resolve_range
-    w = Walker(f, loop_mode='once', solve_eq=False)
-    r = _resolve_range(f, lo.iter)
-    ri = w.range_info(r, State()) if r is not None else None
-    ctx.check(ri is not None and w.rel.is_zero(ri[0]) and vr(ri[1]) in ('len(%s)' % track, '%s.size()' % track), 'C10.D', f,
-              'every observation of the track gets a candidate list', witness={'range': unparse(r) if r else unparse(lo.iter)},
-              node=lo, key='range')
-    st = State({iv: Rat.atom(iv), f.params[5]: Rat.const(0), f.params[6]: Rat.const(0)})
-    outs = list(w.run(lo.body, st))
-    apps = []
-    seen = set()
-    for o in outs:
-        for e in o.state.events:
-            if e.kind == 'call' and e.name == 'append' and isinstance(e.recv, Rat) and \
-                    (e.recv.single_atom() or '').endswith('[-1]') and id(e.node) not in seen:
-                apps.append(e)
-                seen.add(id(e.node))
-    cands = [e for e in apps if isinstance(e.args[0], tuple) and len(e.args[0]) == 4 and
-             not all(isinstance(x, Rat) and x.isconst() for x in e.args[0][1:])]
-    sents = [e for e in apps if isinstance(e.args[0], tuple) and len(e.args[0]) == 4 and
-             all(isinstance(x, Rat) and x.isconst() and x.constval() < 0 for x in e.args[0][1:])]
-    if not cands:
-        raise shape_error('__mapOnNetwork: candidate append not found', f.loc(lo))
-    for e in cands:
-        p, elem, d0, d1 = e.args[0]
-        conds = [cj for c, _ in e.conds for cj in c.conjuncts()]
-        # the projection call this tuple comes from
-        ptxt = vr(p)
-        import re
-        m = re.match(r'^(.*projOnTrack\((.*)\))\[0\]$', ptxt)
-        if not m:
-            ctx.violation('C10.D', f, 'the matched point kept is the point returned by the projection', {'point': ptxt}, node=e.node, key='point')
-            continue
-        call, args = m.group(1), m.group(2)
-        eg = '%s.EDGES[%s.getEdgeId(%s)].geom' % (network, network, vr(elem))
-        okargs = args == '%s[%s].position, %s' % (track, iv, eg)
-        ctx.check(okargs, 'C10.D', f,
-                  'the projection is that of the CURRENT observation on the geometry of the edge stored in the candidate',
-                  witness={'projection arguments': args, 'expected': '%s[%s].position, %s' % (track, iv, eg)}, node=e.node, key='proj-args')
-        g = [c for c in conds if c.kind == 'cmp' and c.op in ('<', '<=') and vr(c.a) == call + '[1]' and vr(c.b) == radius]
-        ctx.check(bool(g), 'C10.D', f,
-                  'a candidate is kept only if the distance returned by that same projection is below the search radius',
-                  witness={'guards': [repr(c) for c in conds], 'distance expected in the guard': call + '[1]', 'radius': radius},
-                  node=e.node, key='radius')
-        exp0 = '__distToNode(%s, %s, %s, 0)' % (eg, call + '[0]', call + '[2]')
-        exp1 = '__distToNode(%s, %s, %s, 1)' % (eg, call + '[0]', call + '[2]')
-        ctx.check(vr(d0).endswith(exp0) and vr(d1).endswith(exp1), 'C10.D', f,
-                  'the distances to the two end nodes are computed from the same geometry, point and segment index (ends 0 then 1)',
-                  witness={'third': vr(d0), 'fourth': vr(d1)}, node=e.node, key='enddist')
-    # the table indexed by the observation number is emptied for every track: __states(track, k) returns TABLE[k]
-    tabs = {(e.recv.single_atom() or '')[:-len('[-1]')] for e in cands}
-    if len(tabs) != 1:
-        raise shape_error('__mapOnNetwork: candidate table not identified (%s)' % sorted(tabs), f.loc(lo))
-    tab = tabs.pop()
-    w3 = Walker(f, loop_mode='skip')
-    pre3 = w3.state_before(body, lo)
-    t0 = pre3.env.get(tab) if pre3 is not None else None
-    ctx.check(isinstance(t0, list) and len(t0) == 0, 'C10.D', f,
-              'the candidate table is emptied at the start of every track: entry k is the candidate list of observation k of THIS track',
-              witness={'table': tab, 'value before the observation loop': vr(t0) if t0 is not None else 'whatever the previous track left in it',
-                       'why': 'with several tracks in one call, observation k of a later track is decoded with the candidates of observation k of the first track'},
-              node=lo, key='table-reset')
-    # sentinel for empty lists
-    ok = False
-    for e in sents:
-        conds = [repr(cj) for c, _ in e.conds for cj in c.conjuncts()]
-        if any('len(' in c and '== 0' in c.replace('0 ==', '== 0') or 'len(' in c for c in conds) and \
-                vr(e.args[0][0]) == '%s[%s].position' % (track, iv):
-            ok = True
-    ctx.check(ok, 'C10.S', f, 'an observation without candidate receives the unmatched sentinel (its own position, -1, -1, -1)',
-              witness={'sentinel appends': [repr(e) for e in sents]}, node=lo, key='sentinel')
-    # the HMM is run on this track with the observation mode constant
-    w2 = Walker(f, loop_mode='skip')
-    o2 = [o for o in w2.run(body, State({f.params[5]: Rat.const(0), f.params[6]: Rat.const(0)})) if o.kind == 'fall']
-    est = [e for o in o2 for e in o.state.events if e.kind == 'call' and e.name == 'estimate']
-    ctx.check(bool(est) and vr(est[0].args[0]) == track and vr(est[0].kwargs.get('mode')) == 'MODE_OBS_AS_2D_POSITIONS', 'C10.D', f,
-              'the decoder runs on the same track with observations taken as 2D positions',
-              witness={'call': unparse(est[0].node) if est else None}, node=f.node, key='estimate')
+    pj = _private(ctx, MAP, 'projOnTrack')
+    dn = _private(ctx, MAP, '__distToNode')
+    g = ctx.prog.func(MAP + '.mapOnNetwork')
+    gp = g.params
+    if len(gp) < 5:
+        raise shape_error('mapOnNetwork: parameters not understood', g.loc())
+    RADIUS = 50.0
+
+    class Tag(orders.PyStub):
+        def __init__(self, *tag):
+            self.tag = tag
+
+        def __eq__(self, o):
+            return isinstance(o, Tag) and o.tag == self.tag
+
+        def __ne__(self, o):
+            return not self.__eq__(o)
+
+        def __hash__(self):
+            return hash(self.tag)
+
+        def __repr__(self):
+            return '<%s>' % ' '.join(str(t) for t in self.tag)
+
+        def copy(self):
+            return Tag(*self.tag)
+
+        def __sub__(self, o):
+            return Tag('(', self, '-', o, ')')
+
+        def __rsub__(self, o):
+            return Tag('(', o, '-', self, ')')
+
+        def __add__(self, o):
+            return Tag('(', self, '+', o, ')')
+
+        __radd__ = __add__
+
+    class ObsS(orders.PyStub):
+        def __init__(self, position):
+            self.position = position
+
+    class TrackS(orders.PyStub):
+        def __init__(self, name, n):
+            self.name = name
+            self.obs = [ObsS(Tag('position', name, k)) for k in range(n)]
+            self.created = {}
+
+        def __len__(self):
+            return len(self.obs)
+
+        def size(self):
+            return len(self.obs)
+
+        def __getitem__(self, k):
+            if isinstance(k, int):
+                return self.obs[k]
+            raise orders.Unsupported('track[%r]' % (k,))
+
+        def getObs(self, k):
+            return self.obs[k]
+
+        def createAnalyticalFeature(self, name, val=0.0):
+            self.created[name] = val
+
+    class Edge(orders.PyStub):
+        def __init__(self, e):
+            self.geom = Tag('geometry of edge', e)
+            self.weight = Tag('weight of edge', e)
+
+    class Edges(orders.PyStub):
+        def __getitem__(self, k):
+            if isinstance(k, Tag) and k.tag[0] == 'edge id of':
+                return Edge(k.tag[1])
+            raise _Bad('the geometry is looked up under the id of the neighbouring edge (EDGES[getEdgeId(elem)])', {'EDGES key': repr(k)})
+
+    class Index(orders.PyStub):
+        csize, lsize = 4, 7
+
+        def __init__(self, answers):
+            self.answers = answers
+            self.asked = []
+
+        def neighborhood(self, obj, j=None, unit=0):
+            self.asked.append(obj)
+            if not (isinstance(obj, Tag) and obj.tag[0] == 'position'):
+                raise _Bad('the index is asked for the neighbourhood of the current observation position', {'asked for': repr(obj)})
+            return self.answers[obj.tag[1:]]
+
+    class Net(orders.PyStub):
+        def __init__(self, answers):
+            self.EDGES = Edges()
+            self.spatial_index = Index(answers)
+
+        def getEdgeId(self, e):
+            return Tag('edge id of', e)
+
+    class Hmm(orders.PyStub):
+        def __init__(self):
+            self.states = None
+            self.calls = []
+
+        def setStates(self, fn):
+            self.states = fn
+
+        def setTransitionModel(self, fn):
+            pass
+
+        def setObservationModel(self, fn):
+            pass
+
+        def setLog(self, v):
+            pass
+
+        def estimate(self, track, obs=None, log=False, mode=None, verbose=0, **kw):
+            lists = [list(self.states(track, k)) for k in range(len(track))] if self.states is not None else None
+            self.calls.append((track, mode, lists))
+
+    class _Bad(Exception):
+        def __init__(self, desc, wit):
+            self.desc, self.wit = desc, wit
+
+    dist = {}
+
+    def projector(pos, geom):
+        if not (isinstance(pos, Tag) and pos.tag[0] == 'position' and isinstance(geom, Tag) and geom.tag[0] == 'geometry of edge'):
+            raise _Bad('the projection is that of an observation position on an edge geometry', {'projected': repr(pos), 'onto': repr(geom)})
+        return (Tag('projection of', pos, 'on', geom), dist[(pos.tag[1:], geom.tag[1])], Tag('segment of', pos, 'on', geom))
+
+    def dist_to_node(eg, p_, v, end=0):
+        return Tag('distance to end', end, eg, p_, v)
+    hmms = []
+
+    def mk_hmm():
+        h = Hmm()
+        hmms.append(h)
+        return h
+    glob = {}
+    consts = {}
+
+    def name_of(nm):
+        fi = ctx.prog.maybe_func(MAP + '.' + nm)
+        if fi is not None and fi.cls is None:
+            return orders.make_func(fi.node, funcs)
+        if nm not in consts:
+            consts[nm] = _const_anywhere(ctx, nm)
+        if consts[nm] is not None:
+            return consts[nm]
+        raise orders.Unsupported('free name %s' % nm)
+    funcs = {pj.name: projector, dn.name: dist_to_node, 'HMM': mk_hmm, 'ceil': math.ceil, 'floor': math.floor, 'print': lambda *a_, **k_: None,
+             '__globals__': glob, '__name__': name_of,
+             '__resolve__': lambda call, fname: (name_of(fname) if isinstance(call.func, ast.Name) and ctx.prog.maybe_func(MAP + '.' + fname) is not None else None)}
+    elems = ['e1', 'e2']
+    rels = {'below': RADIUS - 1.0, 'equal': RADIUS, 'above': RADIUS + 1.0}
+    # per observation: None / [] / one edge x 3 relations / two edges x 9 relations
+    options = [('index answers None', None, {}), ('no neighbouring edge', [], {})]
+    for r1 in rels:
+        options.append(('one edge, distance %s the radius' % r1, ['e1'], {'e1': r1}))
+    for r1, r2 in itertools.product(rels, rels):
+        options.append(('two edges, distances %s / %s the radius' % (r1, r2), ['e1', 'e2'], {'e1': r1, 'e2': r2}))
+    n_cases = 0
+    bad = None
+    try:
+        for o0, o1 in [(a_, b_) for a_ in options for b_ in options[:3]] + [(b_, a_) for a_ in options[3:] for b_ in options[:1]]:
+            if bad is not None:
+                break
+            glob.clear()
+            # two tracks in one call: the second must not be decoded with the first one's candidates (the table is module-global)
+            plan = {'T1': (o0, o1), 'T2': (o1, o0, o0)}
+            trs = {tname: TrackS(tname, len(opts)) for tname, opts in plan.items()}
+            answers = {}
+            dist.clear()
+            for tname, opts in plan.items():
+                for k, op in enumerate(opts):
+                    answers[(tname, k)] = list(op[1]) if op[1] is not None else None
+                    for e, rel in op[2].items():
+                        dist[((tname, k), e)] = rels[rel]
+            net = Net(answers)
+            del hmms[:]
+            args = {gp[0]: [trs['T1'], trs['T2']], gp[1]: net, gp[2]: 7.0, gp[3]: 3.0, gp[4]: RADIUS}
+            orders.make_func(g.node, funcs)(**args)
+            n_cases += 1
+            if len(hmms) != 2 or any(len(h.calls) != 1 or h.calls[0][2] is None for h in hmms):
+                raise shape_error('mapOnNetwork: the decoder is not created, given a state function and run exactly once per track', f.loc())
+            for tname, h in zip(('T1', 'T2'), hmms):
+                opts = plan[tname]
+                tr = trs[tname]
+                trk, mode, lists = h.calls[0]
+                mode_want = _const_anywhere(ctx, 'MODE_OBS_AS_2D_POSITIONS')
+                if trk is not tr or mode != mode_want:
+                    bad = ('estimate', 'the decoder runs on the same track with observations taken as 2D positions',
+                           {'track passed': getattr(trk, 'name', repr(trk)), 'mode passed': mode, 'MODE_OBS_AS_2D_POSITIONS': mode_want})
+                    break
+                for k, op in enumerate(opts):
+                    pos = tr.obs[k].position
+                    must, may = set(), set()
+                    for e, rel in op[2].items():
+                        g_ = Tag('geometry of edge', e)
+                        pr = Tag('projection of', pos, 'on', g_)
+                        sg = Tag('segment of', pos, 'on', g_)
+                        cand = (pr, e, Tag('distance to end', 0, g_, pr, sg), Tag('distance to end', 1, g_, pr, sg))
+                        if rel == 'below':
+                            must.add(cand)
+                        if rel == 'equal':
+                            may.add(cand)
+                    got = lists[k]
+                    gset = set(got)
+                    sentinel = (pos, -1, -1, -1)
+                    case = {'track': tname, 'observation': k, 'neighbourhood': op[0], 'candidates the decoder sees': [repr(c_) for c_ in got]}
+                    if gset - {sentinel} - must - may or not must <= gset:
+                        wrong = sorted(repr(c_) for c_ in (gset - {sentinel} - must - may))
+                        missing = sorted(repr(c_) for c_ in (must - gset))
+                        bad = ('radius', 'the candidates of observation k are exactly: for every neighbouring edge whose projection distance is below the search radius, '
+                               '(projected point of position k on that edge, the edge, distances to its two end nodes computed from the same geometry, point and segment)',
+                               dict(case, **{'kept although not such a candidate': wrong, 'missing': missing}))
+                        break
+                    if not (must | (may & gset)) and got != [sentinel]:
+                        bad = ('sentinel', 'an observation without candidate receives the unmatched sentinel (its own position, -1, -1, -1) and nothing else',
+                               dict(case, **{'expected': repr([sentinel])}))
+                        break
+                    if (must | (may & gset)) and sentinel in gset:
+                        bad = ('sentinel', 'a matched observation is not flagged unmatched', case)
+                        break
+                if bad is not None:
+                    break
+    except orders.Unsupported as ex:
+        raise shape_error('__mapOnNetwork not interpretable: %s' % ex, f.loc())
+    except _Bad as ex:
+        bad = ('provenance', ex.desc, ex.wit)
+    except (IndexError, KeyError, TypeError, AttributeError, NameError) as ex:
+        bad = ('fails', '__mapOnNetwork does not fail while building the candidates', {'exception': '%s: %s' % (type(ex).__name__, ex)})
+    if bad is not None:
+        rule = 'C10.S' if bad[0] == 'sentinel' else 'C10.D'
+        ctx.violation(rule, f, bad[1], bad[2], node=f.node, key=bad[0])
+    else:
+        ctx.ok('C10.D', f, 'every candidate the decoder sees for observation k is (projection of position k on a neighbouring edge, that edge, its two end-node '
+                           'distances) with projection distance below (or equal to) the radius, and all those below it are present: %d interpreted cases' % n_cases, node=f.node)
+        ctx.ok('C10.S', f, 'an observation without candidate receives exactly the unmatched sentinel (its own position, -1, -1, -1)', node=f.node)
+        ctx.ok('C10.D', f, 'the candidate table seen by the decoder belongs to the current track (two tracks in a row)', node=f.node)
+        ctx.ok('C10.D', f, 'the decoder runs on the same track with observations taken as 2D positions', node=f.node)
+    ctx.extra['C10.D cases'] = n_cases
 
 
 def rule_N(ctx):
@@ -269,6 +441,8 @@ def rule_P(ctx):
     c20.rule_D(_Proxy(ctx))
     # ... and the distance returned for a polyline is the one of the projection whose point is returned
     c20.rule_P(Proxy(ctx, {'C20.P': 'C10.P'}))
+    # ... and the wrapper used by map-matching projects on the current geometry of the edge
+    c20.proj_on_track_rule(ctx, 'C10.P')
 
 
 RULES = [
